@@ -4,6 +4,7 @@
 #include "vh.h"
 #include <gnu_gama/intfloat.h>
 #include <gnu_gama/gon2deg.h>
+#include <gnu_gama/latlong.h>
 using namespace vh;
 int main(int argc, char** argv) {
   if (argc < 2) Tok::fail("usage: drv_lit file");
@@ -17,6 +18,12 @@ int main(int argc, char** argv) {
       double g = 0;
       bool a = GNU_gama::deg2gon(s, g);
       std::cout << "{\"s\":" << jstr(line.substr(2)) << ",\"f\":" << GNU_gama::IsFloat(s) << ",\"i\":" << GNU_gama::IsInteger(s) << ",\"a\":" << a << "}\n";
+    } else if (line[0] == 'T') {
+      std::istringstream is(line.substr(2));
+      double gon; int prec;
+      is >> gon >> prec;
+      const double rad = gon * 3.14159265358979323846 / 200;
+      std::cout << "{\"gon\":" << jnum(gon) << ",\"prec\":" << prec << ",\"lat\":" << jstr(GNU_gama::latitude(rad, prec)) << ",\"lon\":" << jstr(GNU_gama::longitude(rad, prec)) << "}\n";
     } else if (line[0] == 'G') {
       std::istringstream is(line.substr(2));
       double gon; int prec;
